@@ -137,10 +137,15 @@ deriving DecidableEq, Repr
 
 /-! ### JSON -/
 
+def errorStr : Name := ['e', 'r', 'r', 'o', 'r']
+def warningStr : Name := ['w', 'a', 'r', 'n', 'i', 'n', 'g']
+def ignoredStr : Name := ['i', 'g', 'n', 'o', 'r', 'e', 'd']
+
+/-- severity.String() -/
 def sevString : Sev → Name
-  | .error => "error".toList
-  | .warning => "warning".toList
-  | .ignored => "ignored".toList
+  | .error => errorStr
+  | .warning => warningStr
+  | .ignored => ignoredStr
 
 structure JRelated where
   location : Pos
@@ -199,11 +204,11 @@ structure SResult where
   suppressions : List Name
 deriving DecidableEq, Repr
 
-def inSource : Name := "inSource".toList
+def inSource : Name := ['i', 'n', 'S', 'o', 'u', 'r', 'c', 'e']
 
 /-- `fmt.Sprintf("\n\t[%s](%d)", related.Message, i+1)` -/
 def relRef (id : Nat) (msg : Name) : Name :=
-  "\n\t[".toList ++ msg ++ "](".toList ++ (Nat.repr id).toList ++ [')']
+  ['\n', '\t', '['] ++ msg ++ [']', '('] ++ (Nat.repr id).toList ++ [')']
 
 /-- related information number `i` (0-based) gets the id `i+1`. -/
 def sarifRelated (short : Name → Name) (i : Nat) : List Related → List SRel
@@ -265,5 +270,47 @@ def output (short : Name → Name) (all fail : List Name) (showIgnored noCompile
   | .json => (.json (renderJson xs), e)
   | .sarif => (.sarif (renderSarif short all xs), e)
   | .null => (.null, e)
+
+/-! ### the value of `-f` and the exit code 2 paths -/
+
+inductive FormatArg where
+  | known (f : Format)
+  /-- `-f binary`: a lint run writes the gob encoded result -/
+  | binary
+  | unsupported
+deriving DecidableEq, Repr
+
+def textStr : Name := ['t', 'e', 'x', 't']
+def stylishStr : Name := ['s', 't', 'y', 'l', 'i', 's', 'h']
+def jsonStr : Name := ['j', 's', 'o', 'n']
+def sarifStr : Name := ['s', 'a', 'r', 'i', 'f']
+def nullStr : Name := ['n', 'u', 'l', 'l']
+def binaryStr : Name := ['b', 'i', 'n', 'a', 'r', 'y']
+
+/-- the `switch cmd.flags.formatter` of Command.lint / printDiagnostics (exact, case sensitive). -/
+def formatArg (s : Name) : FormatArg :=
+  if s = textStr then .known .text
+  else if s = stylishStr then .known .stylish
+  else if s = jsonStr then .known .json
+  else if s = sarifStr then .known .sarif
+  else if s = nullStr then .known .null
+  else if s = binaryStr then .binary
+  else .unsupported
+
+/-- exit status of a lint run (Command.lint): an unsupported format exits 2 before anything
+is linted; `-f binary` writes the result and exits 0; otherwise printDiagnostics decides. -/
+def lintExit (fmt : Name) (all fail : List Name) (showIgnored noCompile : Bool) (ps : List Problem) : Nat :=
+  match formatArg fmt with
+  | .known f => (printDiagnostics all fail showIgnored noCompile f (ps.map Problem.diag)).2
+  | .binary => 0
+  | .unsupported => 2
+
+/-- exit status of `staticcheck -merge -f fmt files` for readable files (Command.merge →
+printDiagnostics): `-f binary` "not supported in this context" and unknown formats exit 2. -/
+def mergeExit (fmt : Name) (all fail : List Name) (showIgnored noCompile : Bool) (ps : List Problem) : Nat :=
+  match formatArg fmt with
+  | .known f => (printDiagnostics all fail showIgnored noCompile f (ps.map Problem.diag)).2
+  | .binary => 2
+  | .unsupported => 2
 
 end Verif.C11
